@@ -36,9 +36,11 @@ pub enum LayoutFeature {
     WideSpaces,
     /// blank lines between statements
     BlankLines,
+    /// nothing at all between the `}` that closes a rule and the `rule` that opens the next
+    RulesTouch,
 }
 
-pub const ALL_LAYOUT_FEATURES: [LayoutFeature; 8] = [
+pub const ALL_LAYOUT_FEATURES: [LayoutFeature; 9] = [
     LayoutFeature::OneLine,
     LayoutFeature::SpaceInsideParens,
     LayoutFeature::NoSpaceAroundOperators,
@@ -47,6 +49,7 @@ pub const ALL_LAYOUT_FEATURES: [LayoutFeature; 8] = [
     LayoutFeature::Tabs,
     LayoutFeature::WideSpaces,
     LayoutFeature::BlankLines,
+    LayoutFeature::RulesTouch,
 ];
 
 #[derive(Clone, Debug, PartialEq)]
@@ -293,9 +296,11 @@ pub fn apply_layout(marked_rules: &[String], spec: &LayoutSpec) -> String {
     let on = |f: LayoutFeature, rng: &mut Rng| spec.has(f) && (!spec.mixed || rng.bool());
     for (ri, mr) in marked_rules.iter().enumerate() {
         if ri > 0 {
-            out.push_str(if spec.has(OneLine) { " " } else { "\n\n" });
-            if !spec.has(OneLine) {
-                line_slots.push(out.len());
+            if !spec.has(RulesTouch) {
+                out.push_str(if spec.has(OneLine) { " " } else { "\n\n" });
+                if !spec.has(OneLine) {
+                    line_slots.push(out.len());
+                }
             }
         } else {
             line_slots.push(0);
